@@ -610,7 +610,7 @@ fn contains_jsonb(left: &[u8], right: &[u8]) -> Result<bool, Error> {
                         }
                         let l_val = &left[l_val_offset..l_val_offset + l_jentry.length as usize];
                         if r_jentry.type_code != CONTAINER_TAG {
-                            if !l_val.eq(r_val) {
+                            if compare_scalar(&l_jentry, l_val, &r_jentry, r_val)? != Ordering::Equal {
                                 return Ok(false);
                             }
                         } else if !contains_jsonb(l_val, r_val)? {
@@ -649,7 +649,7 @@ fn contains_jsonb(left: &[u8], right: &[u8]) -> Result<bool, Error> {
             }
             Ok(true)
         }
-        _ => Ok(left.eq(right)),
+        _ => Ok(compare(left, right)? == Ordering::Equal),
     }
 }
 
@@ -3142,7 +3142,9 @@ fn array_contains(arr: &[u8], arr_header: u32, val: &[u8], val_jentry: JEntry) -
         if jentry.type_code != val_jentry.type_code {
             continue;
         }
-        if val.eq(arr_val) {
+        // scalars match by value, the same as `compare`, so that numerically
+        // equal numbers match whatever their encoding.
+        if let Ok(Ordering::Equal) = compare_scalar(&jentry, arr_val, &val_jentry, val) {
             return true;
         }
     }
